@@ -169,6 +169,80 @@ def copyFrom (r o : RArr) : Option RArr :=
           | some cs' => some { r1 with cells := some cs', n := vs.length }
           | none => none
 
+/-- the copy loop of `append(*this)`: `src` starts at `_begin.item` of the array's own block AFTER `reserve`
+    (`d` = destination cell, `j` = source cell, `k` = elements left) -/
+def selfCopyLoop : Cells → Nat → Nat → Nat → Option Cells
+  | cs, _, _, 0 => some cs
+  | cs, d, j, k + 1 =>
+    match readCell cs j with
+    | none => none
+    | some v =>
+      match construct cs d v with
+      | none => none
+      | some cs' => selfCopyLoop cs' (d + 1) (j + 1) k
+
+/-- `append(*this)` -/
+def appendSelf (r : RArr) : Option RArr :=
+  match reserve r (r.n + r.n) with                     -- valuesSize = values.size(); reserve(size + valuesSize);
+  | none => none
+  | some r1 =>
+    match r1.cells with
+    | none => if r.n = 0 then some r1 else none
+    | some cs =>
+      match selfCopyLoop cs r.n 0 r.n with            -- src = values._begin.item (the new block)
+      | some cs' => some { r1 with cells := some cs', n := r.n + r.n }
+      | none => none
+
+/-- `append(a[i])`: `src = reserve(size + 1, &value)` = `_begin.item + index` in the new block -/
+def appendRef (r : RArr) (i : Nat) : Option RArr :=
+  if i < r.n then
+    match reserve r (r.n + 1) with
+    | none => none
+    | some r1 =>
+      match r1.cells with
+      | none => none
+      | some cs =>
+        match readCell cs i with
+        | none => none
+        | some v =>
+          match construct cs r.n v with
+          | some cs' => some { r1 with cells := some cs', n := r.n + 1 }
+          | none => none
+  else none
+
+/-- the fill loop of `resize(n, a[i])`: every new cell is copy-constructed from `*src` (cell `i` of the new block) -/
+def fillRefLoop : Cells → Nat → Nat → Nat → Option Cells
+  | cs, _, _, 0 => some cs
+  | cs, d, i, k + 1 =>
+    match readCell cs i with
+    | none => none
+    | some v =>
+      match construct cs d v with
+      | none => none
+      | some cs' => fillRefLoop cs' (d + 1) i k
+
+/-- `resize(size, a[i])` -/
+def resizeRef (r : RArr) (size i : Nat) : Option RArr :=
+  if i < r.n then
+    if size < r.n then
+      match r.cells with
+      | none => none
+      | some cs =>
+        match destroyRange cs size (r.n - size) with
+        | some cs' => some { r with cells := some cs', n := size }
+        | none => none
+    else
+      match reserve r size with
+      | none => none
+      | some r1 =>
+        match r1.cells with
+        | none => none
+        | some cs =>
+          match fillRefLoop cs r.n i (size - r.n) with
+          | some cs' => some { r1 with cells := some cs', n := size }
+          | none => none
+  else none
+
 /-- the elements of `o` as `append(const Array&)` reads them through `values._begin.item` -/
 def contents (o : RArr) : Option (List Int) :=
   match o.cells with
@@ -187,7 +261,8 @@ def RPair.set (p : RPair) (v : Nat) (x : RArr) : RPair := if v = 0 then { p with
 def isArrayOp : Op → Bool
   | .anew _ | .anewcap _ _ | .acopy _ | .aassign _ | .areserve _ _ | .aresize _ _ _ | .aappend _ _ | .aappenda _
   | .aappendn _ _ | .aremovei _ _ | .aremove _ _ | .aremoveFront _ | .aremoveBack _ | .aclear _ | .aswap _
-  | .afind _ _ | .aget _ _ | .afront _ | .aback _ | .aeq _ _ => true
+  | .afind _ _ | .aget _ _ | .afront _ | .aback _ | .aeq _ _
+  | .aappendself _ | .aappendref _ _ | .aresizeref _ _ _ | .aassignself _ => true
   | _ => false
 
 /-- one Array operation of the machine at cell level (`none` = precondition violated or fault);
@@ -216,6 +291,10 @@ def rstep (p : RPair) (op : Op) : Option RPair :=
   | .afront v => un v (fun r => if 0 < r.n then some r else none)
   | .aback v => un v (fun r => if 0 < r.n then some r else none)
   | .aeq v w => if v < 2 ∧ w < 2 then some p else none
+  | .aappendself v => un v appendSelf
+  | .aappendref v i => un v (fun r => appendRef r i)
+  | .aresizeref v n i => un v (fun r => resizeRef r n i)
+  | .aassignself v => if v < 2 then some p else none
   | _ => some p
 
 def rrun (p : RPair) : List Op → RPair
